@@ -51,6 +51,15 @@ type fpHeap struct {
 	factories map[string]bool
 	vrets     map[string]string // "pkg.Var" of function type -> first result type (star stripped)
 	retKind   map[string]string // "pkg.F" / "pkg.T.M" / "pkg.Var" -> kind of result 0: ptr | slice | map | func | value | named
+	mutators  map[string]bool   // methods of *oidc.Error that assign to a field of their receiver (c11errprog.go: c11ErrorMutators)
+	mutCalls  []fpMutCall       // every call of one of them, with the origins of the receiver
+}
+
+// fpMutCall: `x.WithDescription(…)` — a write into the object x refers to, made by the method (a `recv` foreign write)
+type fpMutCall struct {
+	File, Func, Method string
+	Line               int
+	Origins            []string
 }
 
 func newFpHeap() *fpHeap {
@@ -602,6 +611,112 @@ func (w *fpWalk) heapErrorsAs(c *ast.CallExpr) {
 	w.resEnv[t.Name] = at
 }
 
+// errors.As leaves its target untouched when it answers false: in the body of `if ok := errors.As(err, &t); !ok {…}` /
+// `if !errors.As(err, &t) {…}` the variable t still refers to what it referred to before the call (usually a `new(T)` of this
+// function), not to an object of err's chain.  heapAsTargets finds the targets of such an `if` and remembers their binding
+// before the statement; heapAsFailed installs those bindings for the body when the condition is the negated result;
+// heapAsRestore puts the bindings after the call back for the code that follows.
+type heapAsBinding struct {
+	name string
+	at   map[string]bool
+	ok   bool
+}
+
+func heapAsCall(e ast.Expr) (*ast.Ident, bool) {
+	c, ok := ast.Unparen(e).(*ast.CallExpr)
+	if !ok || len(c.Args) != 2 || exprString(c.Fun) != "errors.As" {
+		return nil, false
+	}
+	u, ok := ast.Unparen(c.Args[1]).(*ast.UnaryExpr)
+	if !ok || u.Op != token.AND {
+		return nil, false
+	}
+	t, ok := u.X.(*ast.Ident)
+	return t, ok
+}
+
+// heapAsNegated: the `if` runs its body exactly when an errors.As of its header answered false; returns the target
+func heapAsNegated(x *ast.IfStmt) (*ast.Ident, bool) {
+	not, ok := ast.Unparen(x.Cond).(*ast.UnaryExpr)
+	if !ok || not.Op != token.NOT {
+		return nil, false
+	}
+	if t, ok := heapAsCall(not.X); ok { // if !errors.As(err, &t)
+		return t, true
+	}
+	flag, ok := ast.Unparen(not.X).(*ast.Ident)
+	if !ok {
+		return nil, false
+	}
+	as, ok := x.Init.(*ast.AssignStmt) // if ok := errors.As(err, &t); !ok
+	if !ok || len(as.Lhs) != 1 || len(as.Rhs) != 1 {
+		return nil, false
+	}
+	if l, ok := as.Lhs[0].(*ast.Ident); !ok || l.Name != flag.Name {
+		return nil, false
+	}
+	return heapAsCall(as.Rhs[0])
+}
+
+func (w *fpWalk) heapAsTargets(x *ast.IfStmt) []heapAsBinding {
+	if w.resEnv == nil {
+		return nil
+	}
+	t, ok := heapAsNegated(x)
+	if !ok {
+		return nil
+	}
+	at, bound := w.resEnv[t.Name]
+	return []heapAsBinding{{t.Name, at, bound}}
+}
+
+func (w *fpWalk) heapAsFailed(x *ast.IfStmt, pre []heapAsBinding) []heapAsBinding {
+	var post []heapAsBinding
+	for _, b := range pre {
+		at, bound := w.resEnv[b.name]
+		post = append(post, heapAsBinding{b.name, at, bound})
+		if b.ok {
+			w.resEnv[b.name] = b.at
+		} else {
+			delete(w.resEnv, b.name)
+		}
+	}
+	return post
+}
+
+func (w *fpWalk) heapAsRestore(post []heapAsBinding) {
+	for _, b := range post {
+		if b.ok {
+			w.resEnv[b.name] = b.at
+		} else {
+			delete(w.resEnv, b.name)
+		}
+	}
+}
+
+// heapMutatorCall: a call of a mutator method of *oidc.Error; the receiver's origins say whose object is written
+func (w *fpWalk) heapMutatorCall(c *ast.CallExpr) {
+	h := w.f.gen.heap
+	if h.collect || w.resEnv == nil {
+		return
+	}
+	sel, ok := c.Fun.(*ast.SelectorExpr)
+	if !ok || !h.mutators[sel.Sel.Name] {
+		return
+	}
+	if id, ok := sel.X.(*ast.Ident); ok {
+		if _, imp := w.isImport(id); imp {
+			return // pkg.WithX(…): a function, not a method
+		}
+	}
+	var at []string
+	for a := range w.origins(sel.X, 0) {
+		at = append(at, a)
+	}
+	sort.Strings(at)
+	h.mutCalls = append(h.mutCalls, fpMutCall{File: w.f.rel, Func: w.fn, Method: sel.Sel.Name, Line: w.f.gen.fset.Position(c.Pos()).Line, Origins: at})
+}
+
 // heapReturn: record the origins of every result (collect pass)
 func (w *fpWalk) heapReturn(x *ast.ReturnStmt) {
 	h := w.f.gen.heap
@@ -759,6 +874,21 @@ func (g *fpGen) heapFacts(handsOut map[string]map[string]bool) string {
 	}
 	b.WriteString(strings.Join(ls, ",\n") + "\n]\n\n")
 
+	mc := append([]fpMutCall{}, g.heap.mutCalls...)
+	sort.SliceStable(mc, func(i, j int) bool {
+		if mc[i].File != mc[j].File {
+			return mc[i].File < mc[j].File
+		}
+		return mc[i].Line < mc[j].Line
+	})
+	b.WriteString("/-- every call of a mutator method of `*oidc.Error` (a method that assigns to a field of its receiver: the `recv` writes above) in the\n    scanned packages: (function, line, method, origins of the receiver) — `fresh` = an error value made by this very expression / function -/\n")
+	b.WriteString("def errorMutatorCalls : List (String × Nat × String × List String) := [\n")
+	ls = nil
+	for _, c := range mc {
+		ls = append(ls, fmt.Sprintf("  (%s, %d, %s, %s)", leanStr(c.Func), c.Line, leanStr(c.Method), leanStrs(c.Origins)))
+	}
+	b.WriteString(strings.Join(ls, ",\n") + "\n]\n\n")
+
 	var fs []string
 	for f := range g.heap.factories {
 		fs = append(fs, f)
@@ -769,6 +899,7 @@ func (g *fpGen) heapFacts(handsOut map[string]map[string]bool) string {
 	b.WriteString("def heapFacts : Footprint.HeapFacts :=\n  { cells := sharedCells, handsOut := handsOut, writes := foreignWrites, factories := closureFactories }\n\n")
 	g.g.facts["sharedCells"] = len(cells)
 	g.g.facts["foreignWrites"] = len(ws)
+	g.g.facts["errorMutatorCalls"] = len(mc)
 	return b.String()
 }
 
